@@ -48,6 +48,7 @@ fn std_part(ctx: &Ctx, thorough: bool) {
     }
     let prots = [libc::PROT_READ | libc::PROT_WRITE, libc::PROT_READ, libc::PROT_NONE];
     let file_lens: [u64; 7] = [0, 1, 4095, 4096, 4097, 8192, 12288];
+    let mut cursor_turn = 0usize;
     for &flen in &file_lens {
         let f = tempfile().unwrap();
         f.set_len(flen).unwrap();
@@ -68,6 +69,21 @@ fn std_part(ctx: &Ctx, thorough: bool) {
                         ctx.case(true);
                         let end = off.checked_add(size as u64);
                         let must_fail = flags & libc::MAP_FIXED != 0 || end.is_none() || end.unwrap() > flen;
+                        // where the descriptor's cursor happens to stand (left there by earlier
+                        // reads, writes or seeks of the caller) has no say in what is safe to map
+                        {
+                            use std::io::{Seek, SeekFrom};
+                            cursor_turn += 1;
+                            let pos = match cursor_turn % 6 {
+                                0 => 0,
+                                1 => flen,
+                                2 => end.unwrap_or(u64::MAX >> 1),
+                                3 => end.unwrap_or(0).saturating_add(1),
+                                4 => 1 << 40,
+                                _ => off,
+                            };
+                            let _ = (&f).seek(SeekFrom::Start(pos.min(i64::MAX as u64)));
+                        }
                         let fo = FileOffset::new(f.try_clone().unwrap(), off);
                         let rp = || json!({"api": "MmapRegion::build", "file_len": flen, "offset": off, "size": size, "prot": prot, "flags": flags});
                         let (res, log) = record_maps(|| MmapRegion::<()>::build(Some(fo), size, prot, flags));
@@ -81,6 +97,12 @@ fn std_part(ctx: &Ctx, thorough: bool) {
                     ctx.case(true);
                     let end = off.checked_add(size as u64);
                     let must_fail = end.is_none() || end.unwrap() > flen;
+                    {
+                        use std::io::{Seek, SeekFrom};
+                        cursor_turn += 1;
+                        let pos = if cursor_turn % 2 == 0 { end.unwrap_or(1 << 41).saturating_add(4096) } else { 0 };
+                        let _ = (&f).seek(SeekFrom::Start(pos.min(i64::MAX as u64)));
+                    }
                     let fo = FileOffset::new(f.try_clone().unwrap(), off);
                     let (prot, flags) = (libc::PROT_READ | libc::PROT_WRITE, libc::MAP_NORESERVE | libc::MAP_SHARED);
                     let rp = || json!({"api": "MmapRegionBuilder", "file_len": flen, "offset": off, "size": size, "hugetlbfs": huge});
@@ -102,6 +124,10 @@ fn std_part(ctx: &Ctx, thorough: bool) {
                 ctx.case(true);
                 let end = off.checked_add(size as u64);
                 let must_fail = end.is_none() || end.unwrap() > flen;
+                {
+                    use std::io::{Seek, SeekFrom};
+                    let _ = (&f).seek(SeekFrom::Start(end.unwrap_or(1 << 41).saturating_add(1).min(i64::MAX as u64)));
+                }
                 let fo = FileOffset::new(f.try_clone().unwrap(), off);
                 let rp = || json!({"api": "MmapRegion::from_file", "file_len": flen, "offset": off, "size": size});
                 let (res, log) = record_maps(|| MmapRegion::<()>::from_file(fo, size));
@@ -847,7 +873,7 @@ fn file_histories(ctx: &Ctx) {
 
 pub fn run(tier: Tier, replay: Option<String>) -> i32 {
     let ctx = crate::new_ctx("C15", tier, "fault_enumeration", &replay);
-    ctx.set_rule("Unix build: file lengths {0,1,4095,4096,4097,8192,12288} x offsets {0,1,4096,len-1,len,len+1,2^64-4096,2^64-1} x sizes {0,1,4096,rest-1,rest,rest+1,isize::MAX,usize::MAX} x all 32 subsets of {PRIVATE,SHARED,ANONYMOUS,NORESERVE,FIXED} (x 3 protections in the thorough tier) through MmapRegion::build / from_file / GuestRegionMmap::from_range and the builder with the hugetlbfs hint {unset, false, true}, descriptors opened read-only and write-only x 3 protections x shared/private (a request the kernel refuses stays refused; an accepted one made exactly the mapping it reports), anonymous requests (also through the builder x hugetlbfs hint {unset,false,true} set before or after build x sizes around 2 MiB multiples up to 1 GiB: the request reaching the kernel is the one made, and what the kernel grants is not refused), injected mmap failure, build_raw with pointers at page offset {0,1,8,2048,4095} with and without a backing file and for 58 flag words (all subsets of the basic bits plus huge-page sizes, populate, lock, stack, growsdown, nonblock, sync and unknown high bits: the pointer rule does not depend on the flags), guest bases within +-2 of the top of the address space, byte-by-byte coherence of shared file regions in both directions; a sparse file of 14 GiB with offsets around 2^31, 2^32 and 2^33 through three constructors (the kernel sees the whole offset, the region shows the file's bytes at that offset, and a request the kernel itself maps is not refused). Xen build: guest bases within two pages of 2^64 and around 2^63 for every valid mapping type (end beyond the address space refused whatever backs the region); all 256 low mmap-flag bytes plus every single high bit (alone and combined with GRANT) x {no file, device file at offset 0, at offset 4096} x sizes (incl. past the end of the file for plain file mappings) x hugetlbfs hint {unset, false, true} x injected {none, ioctl failure, mmap failure} on the emulated gntdev/privcmd; every mapping type x 7 explicit flag words x 3 protections: the region reports exactly the requested words. Both builds: every sequence of three file lengths out of {0,4096,8192,12288} with every size requested after each change through one FileOffset lineage (the predicate refers to the file as it is now), and every length query of a valid construction answered with EIO / length 0 / length 2^40 (one deviation per run): whatever the outcome, nothing may stay mapped. Oracle: the statement's acceptance predicate (must fail: MAP_FIXED - which must not even reach the kernel -, overflowing or past-EOF file range, misaligned raw pointer, end beyond the address space, unknown/contradictory Xen type bits, missing file or non-zero offset for foreign/grant; safe requests the OS refuses may fail too); on success the attributes echo the request and exactly one mapping with the requested arguments was made; on failure the interposed mapping log (and the device) show nothing left mapped. One case = one request; all non-trivial; distinct by construction.");
+    ctx.set_rule("Unix build: file lengths {0,1,4095,4096,4097,8192,12288} x offsets {0,1,4096,len-1,len,len+1,2^64-4096,2^64-1} x sizes {0,1,4096,rest-1,rest,rest+1,isize::MAX,usize::MAX} x all 32 subsets of {PRIVATE,SHARED,ANONYMOUS,NORESERVE,FIXED} (x 3 protections in the thorough tier) (with the descriptor's cursor left at 0, at the end, at and beyond the end of the requested range, far beyond the file) through MmapRegion::build / from_file / GuestRegionMmap::from_range and the builder with the hugetlbfs hint {unset, false, true}, descriptors opened read-only and write-only x 3 protections x shared/private (a request the kernel refuses stays refused; an accepted one made exactly the mapping it reports), anonymous requests (also through the builder x hugetlbfs hint {unset,false,true} set before or after build x sizes around 2 MiB multiples up to 1 GiB: the request reaching the kernel is the one made, and what the kernel grants is not refused), injected mmap failure, build_raw with pointers at page offset {0,1,8,2048,4095} with and without a backing file and for 58 flag words (all subsets of the basic bits plus huge-page sizes, populate, lock, stack, growsdown, nonblock, sync and unknown high bits: the pointer rule does not depend on the flags), guest bases within +-2 of the top of the address space, byte-by-byte coherence of shared file regions in both directions; a sparse file of 14 GiB with offsets around 2^31, 2^32 and 2^33 through three constructors (the kernel sees the whole offset, the region shows the file's bytes at that offset, and a request the kernel itself maps is not refused). Xen build: guest bases within two pages of 2^64 and around 2^63 for every valid mapping type (end beyond the address space refused whatever backs the region); all 256 low mmap-flag bytes plus every single high bit (alone and combined with GRANT) x {no file, device file at offset 0, at offset 4096} x sizes (incl. past the end of the file for plain file mappings) x hugetlbfs hint {unset, false, true} x injected {none, ioctl failure, mmap failure} on the emulated gntdev/privcmd; every mapping type x 7 explicit flag words x 3 protections: the region reports exactly the requested words. Both builds: every sequence of three file lengths out of {0,4096,8192,12288} with every size requested after each change through one FileOffset lineage (the predicate refers to the file as it is now), and every length query of a valid construction answered with EIO / length 0 / length 2^40 (one deviation per run): whatever the outcome, nothing may stay mapped. Oracle: the statement's acceptance predicate (must fail: MAP_FIXED - which must not even reach the kernel -, overflowing or past-EOF file range, misaligned raw pointer, end beyond the address space, unknown/contradictory Xen type bits, missing file or non-zero offset for foreign/grant; safe requests the OS refuses may fail too); on success the attributes echo the request and exactly one mapping with the requested arguments was made; on failure the interposed mapping log (and the device) show nothing left mapped. One case = one request; all non-trivial; distinct by construction.");
     ctx.assume("mmap/munmap/ioctl/lseek are observed and faulted through link-time interposition; gntdev/privcmd are emulated");
     if ctx.replay_of.is_some() {
         println!("replay: deterministic enumeration; re-running it");
